@@ -162,6 +162,19 @@ CHECKS = {
          "(accepted iff the checksum still matches, with exactly the model's entropy). Found and fixed: F18."),
    design_ref='DESIGN.md §5 C14',
    note=COMMON_NOTE + "Unicode NFKD is Python's unicodedata on both sides. The default check_on_curve=True guard (entropy must be in (0, n)) is a documented parameter: verified to be exactly that guard and counted."),
+ 'C20': dict(
+   technique='Lean 4 theorems about the provider loop (returned value is a provider answer; no answer => no value; failover past failing providers), any number of providers + exhaustive outcome-assignment correspondence with real Service objects and fake providers',
+   text=("Proved in Lean for the transcription of Service._provider_execute, for ANY number of providers, outcome assignment, max_providers and "
+         "max_errors: a returned value is exactly the answer of one of the providers (never fabricated); if no provider answers no value is returned; "
+         "with max_providers = 1, skipped / empty / raising providers are passed over and the first answering provider's answer is returned as long as "
+         "fewer than max_errors errors were recorded before it. The model is compared EXHAUSTIVELY with real Service objects (generated "
+         "providers.json, fake provider classes injected into bitcoinlib.services): every assignment of 7 outcome kinds to k <= 3 (thorough 4) "
+         "providers, priority orders, max_providers in {1,2}, max_errors in {1,2,4}: returned value, results and errors bookkeeping must match. Every "
+         "query method (sendrawtransaction, getrawtransaction, getbalance, getutxos, gettransaction, mempool, isspent, estimatefee) is run on all "
+         "{ok, False, exception}^2 patterns cold and warm: the answer must be the first responding provider's, a failure, or - warm - exactly what "
+         "was stored. Found and fixed: F36 (getbalance invented 0)."),
+   design_ref='DESIGN.md §5 C20',
+   note=COMMON_NOTE + "Providers are in-process fakes (timeouts and partial HTTP answers are represented by the outcome classes); the SQL cache is exercised, not modelled; estimatefee's clamping/default is a documented normalisation; blockcount's provider-consensus vote is outside the model."),
 }
 
 NOT_YET = {}
